@@ -40,6 +40,7 @@ O-U : >0 f 2.0 1.0 >1.75 g 3.0 >=2.5 sum(g 3.0, tf)
 U-U : spline(>0 as.zbl 92 92 >=0.8 exp_spline >=1.4 as.buck 294.64 0.327022 0.0)
 U-Zr : product(h 3, as.polynomial 1 0.5)
 Zr-Zr : as.buck4 1000.0 0.3 32.0 1.0 1.5 2.5
+Zr-O : >0 as.buck 1000.0 0.3 32.0 >2.0 as.zero
 """),
     # 3: a second file that re-uses the form names f and g with different bodies, and overrides a built-in element
     3: dict(targets=["LAMMPS", "setfl", "excel"], text="""[Potential-Form]
@@ -56,6 +57,7 @@ Cu : as.bornmayer 5.0 0.7
 [Pair]
 Cu-Cu : f 1.0 2.0
 O-O : f 2.0 1.0
+Zr-O : >0 as.buck 1000.0 0.3 32.0 >3.0 as.constant 1
 """),
     4: dict(targets=["setfl_fs", "DL_POLY_EAM_fs"], text="""[EAM-Embed]
 Fe : as.sqrt -1.0
